@@ -96,7 +96,10 @@ static J gen_c08 (uint64_t seed, uint64_t idx)
 			if (flag == SFM_READ && tgt > frames) tgt = frames ;
 			if (g.rng.chance (0.05)) tgt = -1 - (int64_t) g.rng.below (3) ;
 			int64_t base = whence == 0 ? 0 : whence == 2 ? frames : (flag == SFM_READ ? rd : wr) ;
-			if (whence == 1 && flag == 0 && rd != wr) { whence = 0 ; base = 0 ; }		// plain SEEK_CUR with differing pointers: the text does not fix the base
+			// plain SEEK_CUR with differing pointers: the text does not fix the base (either pointer is accepted by the oracle), but it does
+			// say that both pointers end up at the position returned. Half of these seeks are kept (the generator assumes the write
+			// pointer as base only to keep its own bookkeeping going), many of them with offset 0.
+			if (whence == 1 && flag == 0 && rd != wr) { if (g.rng.chance (0.5)) { whence = 0 ; base = 0 ; } else { base = wr ; if (g.rng.chance (0.4)) tgt = wr ; } }
 			s ["off"] = (long long) (tgt - base) ; s ["whence"] = whence ; s ["flag"] = flag ; ops.push (s) ;
 			if (tgt >= 0) { if (flag == SFM_READ) rd = tgt ; else if (flag == SFM_WRITE) wr = tgt ; else { rd = tgt ; wr = tgt ; } }
 		}
@@ -542,11 +545,14 @@ static J gen_c14 (uint64_t seed, uint64_t idx)
 	if (g.rng.chance (0.3)) { J s = mkop ("setstr") ; s ["type"] = SF_STR_TITLE ; s ["len"] = (long long) g.rng.range (1, 30) ; s ["stream"] = 5 ; wops.push (s) ; }
 	int64_t N = 0, cap = (is_alac (f) ? 5000 : 3000) / ch + 2 ;
 	for (int k = 0, nw = (int) g.rng.range (1, 4) ; k < nw ; k++) { J w = mkop ("write") ; w ["T"] = stype_name (T) ; if (g.rng.chance (0.5)) w ["fr"] = 1 ; int64_t n = g.pick_frames (B, ch, cap) ; w ["n"] = (long long) n ; N += n ; wops.push (w) ; }
+	// a string set after the audio ends up in a chunk behind the data (WAV LIST, AIFF, CAF info): the routes must agree on it as well
+	bool late_str = g.rng.chance (0.3) ;
+	if (late_str) { J s = mkop ("setstr") ; s ["type"] = SF_STR_COMMENT ; s ["len"] = (long long) g.rng.range (1, 40) ; s ["stream"] = 6 ; wops.push (s) ; }
 	wops.push (mkop ("close")) ;
 	cfg ["wops"] = wops ;
 	J rops = J::arr () ;
 	{ J o = mkop ("open") ; o ["mode"] = "r" ; o ["expect"] = "any" ; rops.push (o) ; }
-	if (g.rng.chance (0.3)) rops.push (mkop ("getstr")) ;
+	if (late_str || g.rng.chance (0.3)) rops.push (mkop ("getstr")) ;
 	for (int k = 0, nr = (int) g.rng.range (1, 8) ; k < nr ; k++)
 	{	if (g.rng.chance (0.3) && N > 0) { J s = mkop ("seek") ; s ["off"] = (long long) g.rng.below ((uint64_t) N + 1) ; s ["whence"] = 0 ; rops.push (s) ; }
 		else { J r = mkop ("read") ; r ["T"] = stype_name (g.rng.chance (0.7) ? T : (int) g.rng.below (4)) ; if (g.rng.chance (0.5)) r ["fr"] = 1 ; r ["n"] = (long long) g.pick_frames (B, ch, -1) ; rops.push (r) ; }
